@@ -13,9 +13,12 @@ EXTENDS Naturals, TLC
 Statuses == {"good", "revoked", "unknown"}
 Abouts == {"signing", "other"}
 Responders == {"delegated", "ca", "unrelated"}
-VARIABLES status, about, responder
-vars == <<status, about, responder>>
-Init == status \in Statuses /\ about \in Abouts /\ responder \in Responders
+\* a response may carry several SingleResponses: besides the entry described by (status, about) a second entry saying
+\* "good" about the OTHER certificate, before or after it
+Batches == {"single", "other-good-first", "other-good-last"}
+VARIABLES status, about, responder, batch
+vars == <<status, about, responder, batch>>
+Init == status \in Statuses /\ about \in Abouts /\ responder \in Responders /\ batch \in Batches
 Next == UNCHANGED vars
 Spec == Init /\ [][Next]_vars
 Binds == about = "signing" /\ responder \in {"delegated", "ca"}
@@ -24,4 +27,6 @@ Verdict == IF Binds /\ status = "revoked" THEN "not-valid" ELSE Baseline
 RevokedNeverValid == (Binds /\ status = "revoked") => Verdict = "not-valid"
 ForeignIgnored == ~Binds => Verdict = Baseline
 GoodKeeps == (Binds /\ status = "good") => Verdict = Baseline
+\* an entry about another certificate never vouches for the signing certificate, wherever it stands in the response
+BatchIrrelevant == Verdict = (IF Binds /\ status = "revoked" THEN "not-valid" ELSE Baseline)
 =============================================================================
